@@ -3,16 +3,21 @@
    Assumptions beneath.  Model: Fix/Printer.v (mirrors libasn1print/asn1print.c for
    the modelled algebra; tied to the real `asn1c -E` byte for byte by bin/vcheck C12).
 
-   LEVEL: all theorems are at TOKEN level (pp_module : module_ast -> list token).
+   LEVEL: the module theorems are at TOKEN level (pp_module : module_ast -> list token).
    The byte layout ppb_module and the lexer are tied by execution on every generated
-   case (lex (ppb_module a) = Some (pp_module a)), not by a theorem.
+   case (lex (ppb_module a) = Some (pp_module a)), not by a theorem -- except for the VALUE
+   sub-language (C12_lex_value, C12_lex_bits below: byte level, unbounded).
+   Values (numbers, NULL, TRUE/FALSE, bit strings, character strings, reals in fixed notation,
+   value references `id` / `Module.id`) are part of the module AST in every position the
+   grammar has one: value assignments, DEFAULT, single-value constraints, range end points,
+   named numbers, ENUMERATED values, exception specs -- so C12_parse_pp covers them.
    "Two runs give identical files" is a fact about a C process; it is observed by the
    check, not stated here.  "Independent of the file order" has one modelled ingredient:
    the rule that decides which per-type names get the module prefix (Fix/NameClash.v,
    mirrors asn1f_check_duplicate / asn1c_make_identifier; theorems C12_clash_* below, tied
    to the C by the file names generated under every permutation of the file list). *)
-From Coq Require Import List Bool Permutation.
-From A1 Require Import Fix.Printer Fix.PrinterProofs Fix.NameClash Fix.NameClashProofs.
+From Coq Require Import List Bool Permutation Ascii ZArith.
+From A1 Require Import Fix.Printer Fix.PrinterProofs Fix.LexValues Fix.NameClash Fix.NameClashProofs Fix.Pullup Fix.PullupProofs.
 Import ListNotations.
 
 (* the reference parser inverts the printer on every well-formed module of the algebra
@@ -57,6 +62,36 @@ Theorem C12_example : wf_module ex_module = true /\ parse (pp_module ex_module) 
 Proof. exact (conj ex_module_wf (conj ex_module_roundtrip ex_module_lex)). Qed.
 Print Assumptions C12_example.
 
+(* --- byte level of the value sub-language (Fix/LexValues.v) ---------------------------- *)
+
+(* the spelling of a bit vector -- hstring with the digits 0-9A-F when the number of bits is a
+   multiple of 8, bstring otherwise (asn1print_value, ATV_BITVECTOR) -- is one lexeme of the
+   model lexer, whose value is that bit vector; any length, any continuation *)
+Theorem C12_lex_bits : forall bs rest, bs <> [] ->
+  lex1 (ppb_bits bs +++ rest) = Some (TBits bs, rest).
+Proof. exact lex1_bits. Qed.
+Print Assumptions C12_lex_bits.
+
+(* ... a character string with its quotes doubled likewise *)
+Theorem C12_lex_cstr : forall s rest, head_is (fun a => Ascii.eqb a dquote) rest = false ->
+  lex1 (ppb_cstr s +++ rest) = Some (TCstr s, rest).
+Proof. exact lex1_cstr. Qed.
+Print Assumptions C12_lex_cstr.
+
+(* the bytes printed for any well-formed value, followed by anything that cannot extend its last
+   token (blank, newline, `)`, `,`, `|`, `..`), are read back as the value's tokens followed by
+   the tokens of the rest: with C12_parse_pp, a printed value is re-read as the same value *)
+Theorem C12_lex_value : forall v rest, wf_value v = true -> vfollow rest = true ->
+  lex (ppb_value v +++ rest) = match lex rest with Some l => Some (pp_value v ++ l) | None => None end.
+Proof. exact lex_value. Qed.
+Print Assumptions C12_lex_value.
+
+(* the lexer has no lower-case hexadecimal digits (asn1p_l.l: '[0-9A-F ...]+'H) *)
+Theorem C12_lex_lowercase_hex_rejected : forall rest,
+  lex1 (SCons "'"%char (SCons "f"%char (SCons "f"%char (SCons "'"%char (SCons "H"%char rest))))) = None.
+Proof. exact lex1_lowercase_hex_rejected. Qed.
+Print Assumptions C12_lex_lowercase_hex_rejected.
+
 (* --- naming of the per-type output of a module set (Fix/NameClash.v) ----------------- *)
 
 (* the C's pairwise scan (each expression against the expressions before it, both marked
@@ -90,3 +125,45 @@ Theorem C12_clash_example :
   cnames_c ex_ba = Some ["ModB_Info"; "ModA_Info"; "UseA"]%str.
 Proof. exact ex_symmetric. Qed.
 Print Assumptions C12_clash_example.
+
+(* --- constraint resolution over a module set (Fix/Pullup.v) ----------------------------- *)
+(* Model of asn1f_fix_module__phase_1/_2 + asn1constraint_resolve + constraint_type_resolve +
+   asn1constraint_pullup: own constraints are rewritten in place (value references by their values,
+   a contained subtype by the combined constraints of the named type, pulled up on the spot),
+   combined constraints are computed once per type and cached; phase 1 then phase 2 run over the
+   modules in command-line order.  Tied to asn1c by the `-- Combined constraints:` lines of
+   `asn1c -E -F -print-constraints` for generated 2-3 module sets under every file order. *)
+
+(* the memoising in-place algorithm, run over the modules in ANY order, computes the order-free
+   specification (references resolved, the parent's combined constraints first) *)
+Theorem C12_pullup_is_spec : forall w ms t,
+  wf_world w = true -> mods_ok w ms = true -> In t (flat_map snd ms) ->
+  combined w false ms t = spec w t.
+Proof. exact fixall_spec. Qed.
+Print Assumptions C12_pullup_is_spec.
+
+(* hence the combined constraints of every type do not depend on the order of the module list *)
+Theorem C12_pullup_order_independent : forall w ms ms' t,
+  wf_world w = true -> mods_ok w ms = true -> Permutation ms ms' -> In t (flat_map snd ms) ->
+  combined w false ms t = combined w false ms' t.
+Proof. exact combined_order_independent. Qed.
+Print Assumptions C12_pullup_order_independent.
+
+(* the variant "a type of another module is resolved by the pass over its own module, not from
+   pullup" caches an unresolved constraint when the including module comes first: order dependent *)
+Theorem C12_pullup_foreign_unresolved_refuted : exists w ms ms' t,
+  wf_world w = true /\ mods_ok w ms = true /\ Permutation ms ms' /\ In t (flat_map snd ms) /\
+  combined w true ms t <> combined w true ms' t.
+Proof. exact seeded_order_dependent. Qed.
+Print Assumptions C12_pullup_foreign_unresolved_refuted.
+
+(* non-vacuity: V ::= INTEGER (INCLUDES X), X ::= Y, Y ::= INTEGER (W), W ::= INTEGER (0..100) over three modules *)
+Theorem C12_pullup_example :
+  combined wdemo false [mA; mB; mC] 1 = Some [Lit 0%Z 100%Z] /\
+  combined wdemo false [mC; mB; mA] 1 = Some [Lit 0%Z 100%Z] /\
+  spec wdemo 1 = Some [Lit 0%Z 100%Z] /\
+  map (combined wdemo false [mA; mB; mC]) [0; 1; 2; 3] = map (spec wdemo) [0; 1; 2; 3] /\
+  map (combined wdemo false [mC; mB; mA]) [0; 1; 2; 3] = map (spec wdemo) [0; 1; 2; 3] /\
+  spec wdemo 3 = Some [Lit 0%Z 100%Z].
+Proof. exact pullup_example. Qed.
+Print Assumptions C12_pullup_example.
